@@ -367,7 +367,7 @@ GROUPS = {
     "KernelsLin": ["mergeLinearCell", "addLinearScalar", "queryStepLinear", "queryStepLog16", "queryStepLog8"],
     "KernelsHH": ["hhAddCell", "hhMergeCell", "hhMaxStep"],
     "KernelsRand": ["randNext", "logCounterStep"],
-    "KernelsPar": ["monitorStep"],
+    "KernelsPar": ["monitorStep", "mergeRound"],
     "KernelsHHQ": ["hhQuery"],
 }
 
@@ -529,6 +529,74 @@ def translate_hhquery():
             f"  if {t_empty} then false else if {t_unseen} then decide {t_thr} else false\n")
 
 
+MERGING_SKELETON = [
+    "mergers = []",
+    "for i in range(<pair count>):\n    sketch1 = (sketch_type, sketch_args, sketch_array[<dst>].shm.name)\n    sketch2 = (sketch_type, sketch_args, sketch_array[<src>].shm.name)\n"
+    "    mergers.append(ctx.Process(target=_merge_worker, args=(sketch1, sketch2)))\n    mergers[-1].start()",
+    "for p in mergers:\n    p.join()\n    if p.exitcode < 0:\n        raise RuntimeError(f'A _merge_worker had bad p.exitcode={p.exitcode:}')",
+    "new_sketch_array = []",
+    "for i in range(<survivor range>):\n    new_sketch_array.append(sketch_array[i])\n    if i + 1 < len(sketch_array):\n        sketch_array[i + 1] = None\n        gc.collect()",
+    "sketch_array = new_sketch_array",
+    "n_to_merge = len(sketch_array)",
+]
+MERGE_WORKER = ["s1 = attach_shared_memory(*sketch1)", "s2 = attach_shared_memory(*sketch2)", "s1.merge(s2)", "del s1", "del s2", "gc.collect()", "return None"]
+
+
+def translate_merging():
+    """`parallel_merging`: one round of the `while n_to_merge > 1` loop — which pairs (destination, source) are handed to `_merge_worker`
+    (`s1.merge(s2)`), and which indices survive into the next round; everything else must read exactly as modelled."""
+    src, tree = _parse(os.path.join(REPO, "sketchnu", "helpers.py"))
+    mw = _func(tree, "_merge_worker")
+    body = [ast.unparse(x) for x in mw.body if not (isinstance(x, ast.Expr) and isinstance(x.value, ast.Constant))]
+    if body != MERGE_WORKER:
+        raise TranslateError(f"_merge_worker no longer reads as modelled: {body!r}")
+    fn = _func(tree, "parallel_merging")
+    loops = [n for n in fn.body if isinstance(n, ast.While)]
+    if len(loops) != 1 or ast.unparse(loops[0].test) != "n_to_merge > 1":
+        raise TranslateError("parallel_merging: expected exactly one `while n_to_merge > 1:` loop")
+    w = [x for x in loops[0].body]
+    if w and isinstance(w[-1], ast.Expr) and "log_queue.put" in ast.unparse(w[-1]):
+        w = w[:-1]
+    if len(w) != 7 or not isinstance(w[1], ast.For) or not isinstance(w[4], ast.For):
+        raise TranslateError(f"parallel_merging: a merge round no longer has the modelled shape ({len(w)} statements)")
+    pair_loop, surv_loop = w[1], w[4]
+
+    def ex(n, var):
+        if isinstance(n, ast.Constant) and isinstance(n.value, int):
+            return str(n.value)
+        if isinstance(n, ast.Name) and n.id in (var, "n_to_merge"):
+            return n.id
+        if isinstance(n, ast.BinOp) and type(n.op) in BINOPS:
+            return f"({ex(n.left, var)} {BINOPS[type(n.op)]} {ex(n.right, var)})"
+        raise TranslateError(f"parallel_merging: unsupported index expression `{ast.unparse(n)}`")
+
+    if not (isinstance(pair_loop.iter, ast.Call) and ast.unparse(pair_loop.iter.func) == "range" and len(pair_loop.iter.args) == 1):
+        raise TranslateError("parallel_merging: the pair loop is not `for i in range(n)`")
+    count = ex(pair_loop.iter.args[0], "i")
+    try:
+        dst_node = pair_loop.body[0].value.elts[2].value.value.slice
+        src_node = pair_loop.body[1].value.elts[2].value.value.slice
+    except Exception:
+        raise TranslateError("parallel_merging: cannot locate the indices of the merged pair")
+    dst, srci = ex(dst_node, "i"), ex(src_node, "i")
+    r = surv_loop.iter
+    if not (isinstance(r, ast.Call) and ast.unparse(r.func) == "range" and len(r.args) == 3):
+        raise TranslateError("parallel_merging: the survivor loop is not `for i in range(start, stop, step)`")
+    start, stop, step = (ex(a, "i") for a in r.args)
+    got = [ast.unparse(w[0]),
+           ast.unparse(pair_loop).replace(ast.unparse(pair_loop.iter.args[0]), "<pair count>", 1).replace(f"sketch_array[{ast.unparse(dst_node)}]", "sketch_array[<dst>]", 1)
+           .replace(f"sketch_array[{ast.unparse(src_node)}]", "sketch_array[<src>]", 1),
+           ast.unparse(w[2]), ast.unparse(w[3]),
+           ast.unparse(surv_loop).replace(", ".join(ast.unparse(a) for a in r.args), "<survivor range>", 1),
+           ast.unparse(w[5]), ast.unparse(w[6])]
+    if got != MERGING_SKELETON:
+        raise TranslateError(f"parallel_merging: a merge round no longer reads as modelled: {got!r}")
+    return ("/-- `parallel_merging`, one round over `n_to_merge` sketches: the pairs (destination, source) of the spawned `_merge_worker`s (`s1.merge(s2)`), in loop order -/\n"
+            f"def mergePairs (n_to_merge : Nat) : List (Nat × Nat) :=\n  (List.range {count}).map fun i => ({dst}, {srci})\n\n"
+            "/-- … and the indices that survive into the next round (`for i in range(start, stop, step)`) -/\n"
+            f"def survivors (n_to_merge : Nat) : List Nat :=\n  (List.range (({stop} - {start} + {step} - 1) / {step})).map fun j => {start} + j * {step}\n")
+
+
 def render(group):
     """returns (text, errors)"""
     L = ["/- GENERATED by harness/kernels.py from the current /repo source — do not edit.",
@@ -536,6 +604,13 @@ def render(group):
          "namespace Sketchnu.Src", ""]
     errors = []
     for name in GROUPS[group]:
+        if name == "mergeRound":
+            try:
+                L.append(translate_merging())
+            except TranslateError as e:
+                errors.append(f"mergeRound: {e}")
+                L.append(f"-- TRANSLATION FAILED for mergeRound: {e}\n")
+            continue
         if name == "hhQuery":
             try:
                 L.append(translate_hhquery())
